@@ -88,3 +88,76 @@ def allCalls : List Call := [.tick, .inc, .setPosition, .setMessage, .setPrefix,
   .mpPrintln, .mpClear, .mpSuspend, .mpRemove, .mpAdd, .mpInsertBefore, .mpSetAlignment, .mpIsHidden]
 
 end IndicatifModel.Locks
+
+/-! ## The stop / wake-up protocol of the steady ticker (`Ticker::stop`, `TickerControl::run`)
+
+`stopping: (Mutex<bool>, Condvar)`. The ticker thread, after each tick, locks the flag and calls
+`wait_timeout_while(guard, interval, |stopped| !*stopped)`: while the flag is false it waits on the
+condvar (atomically releasing the mutex), re-checking the flag under the mutex after every wake-up.
+`stop()` sets the flag under the mutex, releases it, and then notifies. The model makes the *timeout
+transition optional*, to show that a stop request is never lost even if the interval is infinite. -/
+namespace IndicatifModel.StopProtocol
+
+inductive TK where
+  | run          -- outside the protocol (ticking the bar), about to lock the flag
+  | check        -- holds the mutex, evaluates the condition
+  | waiting      -- blocked in the condvar wait, mutex released
+  | woken        -- left the wait queue (notified or timed out), must re-acquire the mutex
+  | exited
+deriving DecidableEq, Repr
+
+inductive ST where
+  | idle | locked | unlocked | done
+deriving DecidableEq, Repr
+
+inductive Owner where
+  | free | ticker | stopper
+deriving DecidableEq, Repr
+
+structure PS where
+  flag : Bool := false
+  tk : TK := .run
+  own : Owner := .free
+  st : ST := .idle
+  /-- how many more times `stop()` will be called after the current one (`disable` + `Drop` call it twice) -/
+  again : Nat := 1
+deriving DecidableEq, Repr
+
+/-- ticker transitions (`timeout = true` adds the timed-out wake-up) -/
+def tickerSteps (timeout : Bool) (s : PS) : List PS :=
+  match s.tk with
+  | .run => if s.own = .free then [{ s with tk := .check, own := .ticker }] else []
+  | .check => if s.flag then [{ s with tk := .exited, own := .free }] else [{ s with tk := .waiting, own := .free }]
+  | .waiting => if timeout then [{ s with tk := .woken }] else []     -- a notification moves it to `woken`
+  | .woken => if s.own = .free then [{ s with tk := .check, own := .ticker }] else []
+  | .exited => []
+
+/-- stopper transitions: lock, set the flag and unlock, notify one waiter -/
+def stopperSteps (s : PS) : List PS :=
+  match s.st with
+  | .idle => if s.own = .free then [{ s with st := .locked, own := .stopper }] else []
+  | .locked => [{ s with st := .unlocked, flag := true, own := .free }]
+  | .unlocked =>
+    let s' := if s.tk = .waiting then { s with tk := .woken } else s
+    [if s.again = 0 then { s' with st := .done } else { s' with st := .idle, again := s.again - 1 }]
+  | .done => []
+
+def steps (timeout : Bool) (s : PS) : List PS := tickerSteps timeout s ++ stopperSteps s
+
+/-- all states reachable from `frontier` within `fuel` rounds -/
+def reach (timeout : Bool) : Nat → List PS → List PS → List PS
+  | 0, _, seen => seen
+  | fuel + 1, frontier, seen =>
+    let next := (frontier.flatMap (steps timeout)).eraseDups.filter (fun s => !seen.contains s)
+    if next.isEmpty then seen else reach timeout fuel next (seen ++ next)
+
+def allStates (timeout : Bool) : List PS := reach timeout 40 [{}] [{}]
+
+/-- run the ticker alone for `n` steps (deterministic without timeouts) -/
+def tickerAlone : Nat → PS → PS
+  | 0, s => s
+  | n + 1, s => match tickerSteps false s with
+    | s' :: _ => tickerAlone n s'
+    | [] => s
+
+end IndicatifModel.StopProtocol
